@@ -270,7 +270,36 @@ Theorem C19_point_roundtrip_compressed_partial :
 Proof. exact vk_string_roundtrip_compressed. Qed.
 Print Assumptions C19_point_roundtrip_compressed_partial.
 
+(* a string whose length is that of no point encoding of the curve is rejected: in particular every
+   truncation / extension of a valid point string to such a length, and every private-key string of
+   the wrong length *)
+Theorem C19_point_string_wrong_length_rejected : forall sqrt_mod c s validate ve,
+  blen s <> 2 * orderlen (c_p c) -> blen s <> 2 * orderlen (c_p c) + 1 ->
+  blen s <> 2 * orderlen (c_p c) / 2 + 1 ->
+  point_from_bytes sqrt_mod c s validate ve = Err EMalformedPoint.
+Proof. exact point_from_bytes_wrong_length. Qed.
+Print Assumptions C19_point_string_wrong_length_rejected.
+
+Theorem C19_sk_string_roundtrip : forall order_ok pubmul ed_sk c k px py ks,
+  1 <= k -> k < c_n c -> pubmul c k = Ok (px, py) -> px < c_p c -> py < c_p c ->
+  sk_to_string c k = Ok ks ->
+  blen ks = baselen c /\ sk_from_string order_ok pubmul ed_sk (CW c) ks = Ok (SkW c k px py).
+Proof. exact sk_string_roundtrip. Qed.
+Print Assumptions C19_sk_string_roundtrip.
+
+Theorem C19_sk_string_wrong_length_rejected : forall order_ok pubmul ed_sk c s, blen s <> baselen c ->
+  sk_from_string order_ok pubmul ed_sk (CW c) s = Err EMalformedPoint.
+Proof. exact sk_from_string_wrong_length. Qed.
+Print Assumptions C19_sk_string_wrong_length_rejected.
+
 (* ======== DER keys: the 17 generated curves, named and explicit parameters, SEC1 and PKCS#8 ======== *)
+
+(* curve parameters, named and explicit, decode to the same curve object *)
+Theorem C19_curve_der_roundtrip : forall sqrt_mod r ce pe cd, In r wrows ->
+  (pe = Uncompressed \/ pe = Hybrid) -> curve_to_der (curve_of_row r) ce pe = Ok cd ->
+  curve_from_der sqrt_mod known_curves cd true true = Ok (CW (curve_of_row r)).
+Proof. intros sq r ce pe cd Hin Hpe Hcd. exact (proj1 (curve17_from_der sq r ce pe cd Hin Hpe Hcd)). Qed.
+Print Assumptions C19_curve_der_roundtrip.
 
 Theorem C19_vk_der_total : forall (sqrt_mod : Z -> N -> option N) r x y pe ce, In r wrows ->
   (pe = Uncompressed \/ pe = Hybrid) -> x < w_p r -> y < w_p r ->
